@@ -32,7 +32,7 @@ TypeOf(id) == id % 4
 \* per half extra bookkeeping on top of StreamSMOps' records
 SF == [fin |-> FALSE, rst |-> FALSE, stop |-> -1, freed |-> FALSE, finDelivered |-> FALSE,
        finishedEv |-> 0, stoppedEv |-> 0]
-RF == [term |-> "none", stopped |-> FALSE, finArr |-> FALSE, rstArr |-> -1]
+RF == [term |-> "none", stopped |-> FALSE, finArr |-> FALSE, rstArr |-> -1, unord |-> FALSE]
 S(k) == At(snd, k, SF)
 R(k) == At(rcv, k, RF)
 
@@ -101,13 +101,19 @@ Op ==
                           \cup Flag(e.res = "Some" => e.code = s.stop, "WrongStopCode")
             /\ UNCHANGED <<snd, rcv, opened, acc>>
        [] e.op = "read" ->
-            /\ bad' = bad \cup Flag(e.res = "IllegalOrderedRead" \/ unsure
-                                    \/ (IF known THEN e.res \in ReadResults(rOps) ELSE e.res = "ClosedStream"),
-                                    "ReadResultNotInTable")
+            \* an ordered read (arg 1) of a half that has been read unordered (arg 0) is refused and
+            \* changes nothing; it is the only way to get that answer
+            /\ LET tab == ReadResults(rOps)
+                   refused == e.arg = 1 /\ r.unord /\ "ClosedStream" \notin tab
+               IN bad' = bad \cup Flag(unsure \/ (IF known THEN (IF refused THEN e.res = "IllegalOrderedRead" ELSE e.res \in tab)
+                                                    ELSE e.res = "ClosedStream"),
+                                       "ReadResultNotInTable")
                           \cup Flag(e.res = "Finished" => r.finArr, "EndOfStreamWithoutFin")
                           \cup Flag(e.res = "Reset" => r.rstArr = e.code, "ResetOutcomeWithoutReset")
             /\ rcv' = IF e.res = "Finished" THEN Set(rcv, k, [r EXCEPT !.term = "eos"])
-                      ELSE IF e.res = "Reset" THEN Set(rcv, k, [r EXCEPT !.term = "rst"]) ELSE rcv
+                      ELSE IF e.res = "Reset" THEN Set(rcv, k, [r EXCEPT !.term = "rst"])
+                      ELSE IF e.arg = 0 /\ e.res \notin {"ClosedStream", "IllegalOrderedRead"} THEN Set(rcv, k, [r EXCEPT !.unord = TRUE])
+                      ELSE rcv
             /\ UNCHANGED <<snd, opened, acc>>
        [] e.op = "stop" ->
             /\ bad' = bad \cup Flag(unsure \/ (IF known THEN e.res \in StopResults(rOps) ELSE e.res = "ClosedStream"),
